@@ -2,6 +2,7 @@ package dvsim
 
 import (
 	"fmt"
+	"os"
 	"runtime"
 	"strings"
 	"time"
@@ -31,6 +32,10 @@ type Node struct {
 	Eng     *Engine
 	Up      bool
 	Boots   int
+	// Booting: the process is in the window of Router.Start between register() and the insertion of
+	// its own RIB entry: it answers Interests and hears sync Interests, but its loop (heartbeats,
+	// dead checks) has not started (see RouterRestartWindow / FinishBoot)
+	Booting bool
 
 	// reference route table: replay of every rib register/unregister drained from the nfdc queue
 	Routes map[RouteKey]uint64
@@ -75,8 +80,12 @@ type Sim struct {
 	// (delivery deviation Xq / Fd: Data of one neighbour may overtake each other)
 	InFlight []*FlightData
 	// task-delay deviation (see HoldBefore)
-	Held      []*vsched.Task
-	HeldDesc  string
+	Held     []*vsched.Task
+	HeldDesc string
+	// HeldNbr: the neighbour whose advertisement the held tasks were spawned for (set by the harness
+	// right after HoldBefore for an exchange with that neighbour; -1: unknown, the canonical form
+	// then lists the stored advertisement of every neighbour entry of a router with held tasks)
+	HeldNbr   int
 	holdSite  string
 	holdCut   bool
 	Problems  []string // harness-level anomalies that make the execution unusable (CHECK-ERROR material)
@@ -116,7 +125,7 @@ func NewSimOpt(g Graph, o Options) *Sim {
 	}
 	vtime.Reset(true) // timers armed by the code under test (none in the unchanged tree) fire when the clock passes them
 	vsched.Reset()
-	s := &Sim{G: g, Opt: o, Parallel: map[[2]int]bool{}, Live: map[[2]int]bool{}, Alt: map[[2]int]bool{}, Passive: map[[2]int]bool{}, byName: map[string]int{}, byHash: map[uint64]int{}, Universe: map[string]bool{}, TaskCap: 100000}
+	s := &Sim{G: g, Opt: o, Parallel: map[[2]int]bool{}, Live: map[[2]int]bool{}, Alt: map[[2]int]bool{}, Passive: map[[2]int]bool{}, byName: map[string]int{}, byHash: map[uint64]int{}, Universe: map[string]bool{}, TaskCap: 100000, HeldNbr: -1}
 	for _, e := range g.Edges {
 		s.Live[e] = true
 	}
@@ -142,7 +151,10 @@ func NewSimOpt(g Graph, o Options) *Sim {
 	return s
 }
 
-func (s *Sim) boot(i int) {
+func (s *Sim) boot(i int) { s.bootOpt(i, false) }
+
+// bootOpt starts a fresh process for router i; window: it stops in the boot window (Node.Booting).
+func (s *Sim) bootOpt(i int, window bool) {
 	n := s.Nodes[i]
 	cfg := config.DefaultConfig()
 	cfg.Network = s.Opt.Network
@@ -169,7 +181,14 @@ func (s *Sim) boot(i int) {
 		n.PubSets = map[uint64][]string{} // kept across restarts: sequence numbers never repeat
 	}
 	n.PubCur = map[string]bool{}
-	if err := r.VerifBoot(); err != nil {
+	n.Booting = window
+	bootErr := error(nil)
+	if window {
+		bootErr = r.VerifBootRegister()
+	} else {
+		bootErr = r.VerifBoot()
+	}
+	if err := bootErr; err != nil {
 		// Router.Start would return this error: the router never runs. Recorded, not fatal for the
 		// harness: the rest of the network goes on without it.
 		s.BootErrors = append(s.BootErrors, fmt.Sprintf("r%d (%s, network %s): %v", i, n.NameStr, s.Opt.Network, err))
@@ -215,6 +234,7 @@ func (s *Sim) RunTasks() {
 // Requires vsched.RecordSites.
 func (s *Sim) HoldBefore(site, desc string) {
 	s.holdSite, s.holdCut = site, false
+	s.HeldNbr = -1
 	s.HeldDesc = desc + " from " + s.CanonRouting()
 }
 
@@ -555,7 +575,13 @@ func (s *Sim) ExchangeQueued(i, j int) {
 		adv := "?"
 		if d, _, err := (spec.Spec{}).ReadData(enc.NewWireReader(reply)); err == nil {
 			if a, err := tlv.ParseAdvertisement(enc.NewBufferReader(d.Content().Join()), false); err == nil {
-				adv = advertStr(s, a, false)
+				// the same normal form as the neighbour-table comparison (canon.go rel): the OtherCost
+				// of the advertiser's entry for itself is read by nobody, and the advertiser's canonical
+				// state does not contain it either (R(self)); listing it here made two histories that
+				// end in the same canonical state have different successors under Xq.
+				// (VERIF_DV_FLIGHTRAW=1 brings the old rendering back: a development aid that shows
+				// that the twin audit of the quick tier reports such a canonical form.)
+				adv = advertStr(s, a, os.Getenv("VERIF_DV_FLIGHTRAW") == "")
 			}
 		}
 		s.InFlight = append(s.InFlight, &FlightData{x, reply, adv})
@@ -657,7 +683,9 @@ func (s *Sim) DeadCheck(i int) {
 	n := s.Nodes[i]
 	s.AdvanceClock(n.Cfg.RouterDeadInterval() + time.Millisecond)
 	for _, j := range s.LiveNeighbors(i) {
-		s.Exchange(i, j)
+		if s.Sends(i, j) {
+			s.Exchange(i, j)
+		}
 	}
 	old := vsched.SetContext(fmt.Sprintf("r%d", i))
 	n.DV.VerifCheckDead()
@@ -677,7 +705,9 @@ func (s *Sim) DeadCheckRace(i int) {
 	n := s.Nodes[i]
 	s.AdvanceClock(n.Cfg.RouterDeadInterval() + time.Millisecond)
 	for _, j := range s.LiveNeighbors(i) {
-		s.Exchange(i, j)
+		if s.Sends(i, j) {
+			s.Exchange(i, j)
+		}
 	}
 	ctx := fmt.Sprintf("r%d", i)
 	var mine, rest []*vsched.Task
@@ -749,6 +779,7 @@ func (s *Sim) LinkUp(i, j int)   { s.Live[key(i, j)] = true }
 // RouterDown stops router r: it no longer sends or answers anything; parked Interests of r vanish.
 func (s *Sim) RouterDown(r int) {
 	s.Nodes[r].Up = false
+	s.Nodes[r].Booting = false
 	s.Nodes[r].Eng.outbox = nil
 	var fl []*FlightData
 	for _, f := range s.InFlight {
@@ -770,11 +801,64 @@ func (s *Sim) RouterDown(r int) {
 	}
 }
 
-// RouterUp restarts router r as a fresh process. The clock is advanced first so that the new
-// boot-time sequence numbers exceed every number the previous incarnation used.
-func (s *Sim) RouterUp(r int) {
-	s.AdvanceClock(time.Minute)
+// RouterUp restarts router r as a fresh process a minute after the last event (longer than the
+// dead interval of its neighbours, which however only act on it in their next dead check).
+func (s *Sim) RouterUp(r int) { s.RouterUpAfter(r, time.Minute) }
+
+// RouterUpAfter restarts the stopped router r as a fresh process (dv.NewRouter with the same name
+// and everything Router.Start does before its loop) d after the last event. Nothing guarantees
+// that the new incarnation's boot-time sequence numbers exceed those of the previous one: that is
+// the code's business (it derives them from the clock), and neighbours that still hold the old
+// entry compare against them.
+func (s *Sim) RouterUpAfter(r int, d time.Duration) {
+	s.AdvanceClock(d)
 	s.boot(r)
+}
+
+// RouterRestartWindow is RouterRestart with the new process stopping in the boot window of
+// Router.Start: handlers and routes are registered, the RIB does not contain the router's own entry
+// yet (an advertisement fetched now lists nothing, or only what the router has learned inside the
+// window), no heartbeat has been sent. FinishBoot ends the window.
+func (s *Sim) RouterRestartWindow(r int, d time.Duration) {
+	s.RouterDown(r)
+	s.AdvanceClock(d)
+	s.bootOpt(r, true)
+}
+
+// FinishBoot lets the booting router r reach its loop (it adds itself to its RIB).
+func (s *Sim) FinishBoot(r int) {
+	n := s.Nodes[r]
+	if !n.Booting {
+		return
+	}
+	old := vsched.SetContext(fmt.Sprintf("r%d", r))
+	n.DV.VerifBootSelf()
+	vsched.SetContext(old)
+	n.Booting = false
+	s.RunTasks()
+}
+
+// AnyBooting reports whether some router is in its boot window.
+func (s *Sim) AnyBooting() bool {
+	for _, n := range s.Nodes {
+		if n.Up && n.Booting {
+			return true
+		}
+	}
+	return false
+}
+
+// Sends reports whether router j sends sync Interests that router i hears: the link is live and
+// j's loop is running.
+func (s *Sim) Sends(i, j int) bool { return s.LinkLive(i, j) && !s.Nodes[j].Booting }
+
+// RouterRestart is a process restart as one event: router r stops (RouterDown) and a fresh process
+// of the same name is up d later (a supervisor restarting a crashed daemon: d around a second),
+// well within the dead interval of the neighbours, which therefore still hold the neighbour
+// entry, sequence number and advertisement of the previous incarnation.
+func (s *Sim) RouterRestart(r int, d time.Duration) {
+	s.RouterDown(r)
+	s.RouterUpAfter(r, d)
 }
 
 // ---------------------------------------------------------------------------------------------
